@@ -159,9 +159,57 @@ static void run_g4(int n) {
     }
 }
 
+// ---------------------------------------------------------------- G5: depth sweeps (one-dimensional, not exhaustive): recovery with very deep stacks
+// values are hashes of the value tree, so that "values of states that are not discarded are kept" is still observable at depth 10^5
+static long hv(long v) { return v; }
+static long hv(const term_value<char>& t) { const char* p = std::strchr(g_term_chars, t.get_value()); return 7 + (p ? long(p - g_term_chars) : 99); }
+static long hv(const no_type&) { return 5; }
+template<int K> struct HR { template<class... A> long operator()(A&&... a) const { long h = K + 1; ((h = (h * 1000003 + hv(a)) % 2147483647), ...); return h; } };
+static long ref_hash(const ref::Gram&, const ref::Run& run) {
+    std::vector<long> val(run.nodes.size(), 0);
+    for (size_t i = 0; i < run.nodes.size(); ++i) {     // children are created before their parents
+        const ref::Node& nd = run.nodes[i];
+        if (nd.kind == 0) val[i] = 7 + nd.a; else if (nd.kind == 2) val[i] = 5;
+        else { long h = nd.a + 1; for (int k : nd.kids) h = (h * 1000003 + val[k]) % 2147483647; val[i] = h; }
+    }
+    return run.root >= 0 ? val[run.root] : -1;
+}
+constexpr nterm<long> ds("ds"); constexpr nterm<long> de("de");
+template<class P> static void deep_case(const P& p, RefG& G, const char* chars, const std::string& in, const char* what) {
+    g_term_chars = chars;
+    std::vector<ref::Tok> toks; int fo = -1; tokenize(in, chars, 0, 0, toks, fo);
+    ref::Run run = ref::drive(G.g, ref::RefTable{G.lr}, toks, 100000000, false);
+    std::ostringstream es; auto r = p.parse(string_buffer(std::string(in)), es);
+    ++g_cases; ++g_checks; if (run.nerrors && run.ok) ++g_recovered; if (run.nerrors && !run.ok) ++g_failed_rec;
+    std::string label = std::string(what) + " (" + std::to_string(in.size()) + " terms)";
+    if (run.horizon || run.undefined) { std::printf("{\"harness_error\": \"reference driver gave no verdict on a depth sweep\"}\n"); std::exit(2); }
+    if (r.has_value() != run.ok) { fail(label, std::string("parse ") + (r ? "returned a value" : "failed") + ", documented recovery " + (run.ok ? "succeeds" : "fails") + " (it pops " + std::to_string(run.popped_states) + " states with " + std::to_string(run.max_depth) + " on the stack)"); return; }
+    ++g_checks; if (run.ok && *r != ref_hash(G.g, run)) { fail(label, "the returned value is not the value of the documented recovery (states below the topmost one accepting the error symbol must keep their values; " + std::to_string(run.popped_states) + " states are popped, stack depth " + std::to_string(run.max_depth) + ")"); return; }
+    std::string want; for (size_t k = 0; k < run.err_tok.size(); ++k) { int ti = run.err_tok[k]; want += "[1:" + std::to_string((ti < (int)toks.size() ? toks[ti].off : (int)in.size()) + 1) + "] PARSE: Syntax error: Unexpected '" + G.names[run.err_term[k]] + "'\n"; }
+    ++g_checks; if (es.str() != want) fail(label, "stream '" + es.str().substr(0, 200) + "' expected '" + want.substr(0, 200) + "'");
+}
+static void run_g5(bool thorough) {
+    g_gname = "depth sweep";
+    static const parser pa(ds, terms('a', 'b', 'c'), nterms(ds), rules(ds('a', ds) >= HR<0>{}, ds('b') >= HR<1>{}, ds(error, 'b') >= HR<2>{}));
+    RefG A; A.g.NT = 1; A.g.T = 3; { int T0 = ref::TERM, E = ref::TERM + 4; A.names = {"a", "b", "c", "<eof>", "<error_recovery_token>"}; rule(A, 0, {T0, 0}); rule(A, 0, {T0 + 1}); rule(A, 0, {E, T0 + 1}); finish(A); }
+    static const parser pb(de, terms('(', ')', 'x'), nterms(de), rules(de('(', de, ')') >= HR<0>{}, de('x') >= HR<1>{}, de('(', error, ')') >= HR<2>{}));
+    RefG B; B.g.NT = 1; B.g.T = 3; { int T0 = ref::TERM, E = ref::TERM + 4; B.names = {"(", ")", "x", "<eof>", "<error_recovery_token>"}; rule(B, 0, {T0, 0, T0 + 1}); rule(B, 0, {T0 + 2}); rule(B, 0, {T0, E, T0 + 1}); finish(B); }
+    std::vector<size_t> depths = {1, 2, 15, 16, 17, 255, 256, 257, 1022, 1023, 1024, 1025, 4096, 65532, 65533, 65534, 65535, 65536, 65537, 70000};
+    if (thorough) for (size_t d : {32767u, 32768u, 32769u, 131071u, 131072u, 131073u, 200000u, 300000u}) depths.push_back(d);
+    for (size_t d : depths) {
+        deep_case(pa, A, "abc", std::string(d, 'a') + "bcb", "right recursion, error after the last shift (one state popped)");
+        deep_case(pa, A, "abc", std::string(d, 'a') + "cb", "right recursion, error in a state that accepts the error symbol (nothing popped)");
+        deep_case(pa, A, "abc", std::string(d, 'a') + "bb", "right recursion, error on a surplus term");
+        deep_case(pa, A, "abc", std::string(d, 'a') + "c", "right recursion, input ends while discarding");
+        deep_case(pb, B, "()x", std::string(d, '(') + "xx" + std::string(d, ')'), "nesting, error inside the innermost parentheses");
+        deep_case(pb, B, "()x", std::string(d, '(') + "x)x" + std::string(d, ')'), "nesting, error one level up");
+        deep_case(pb, B, "()x", std::string(d, '(') + ")" + std::string(d, ')'), "nesting, error at the innermost opening parenthesis");
+    }
+}
+
 int main(int argc, char** argv) {
     int n = argc > 1 ? std::atoi(argv[1]) : 5;
-    run_g1(n); run_g2(n); run_g3(n); run_g4(n);
+    run_g1(n); run_g2(n); run_g3(n); run_g4(n); run_g5(n > 5);
     std::string esc; for (char c : g_first) { if (c == '"' || c == '\\') esc += '\\'; if (c == '\n') { esc += "\\n"; continue; } esc += c; }
     std::printf("{\"cases\": %ld, \"checks\": %ld, \"failures\": %ld, \"recovered\": %ld, \"recovery_failed\": %ld, \"first_failure\": \"%s\"}\n", g_cases, g_checks, g_fail, g_recovered, g_failed_rec, esc.c_str());
     return g_fail ? 1 : 0;
